@@ -137,17 +137,26 @@ Proof. unfold geth, ajoin. cbn [ah]. apply nth_zipw_union, peqb_ok. Qed.
 Definition ale_prop (a b : astate) : Prop :=
   (forall x t, In t (getv a x) -> In t (getv b x)) /\ (forall t e, In e (geth a t) -> In e (geth b t)).
 
+Lemma lle_nth A (eqb : A -> A -> bool) (eqb_ok : forall a b, eqb a b = true <-> a = b) :
+  forall (a b : list (list A)), lle (subset eqb) a b = true ->
+  forall i x, In x (nth i a []) -> In x (nth i b []).
+Proof.
+  induction a as [|u a IH]; intros b H i x Hx.
+  - rewrite nth_nil in Hx. destruct Hx.
+  - cbn [lle] in H. destruct b as [|v b]; apply andb_true_iff in H; destruct H as [H1 H2].
+    + destruct i as [|i]; cbn [nth] in Hx.
+      * exfalso. exact (proj1 (subset_In A eqb eqb_ok _ _) H1 x Hx).
+      * specialize (IH [] H2 i x Hx). rewrite nth_nil in IH. destruct IH.
+    + destruct i as [|i]; cbn [nth] in Hx |- *.
+      * exact (proj1 (subset_In A eqb eqb_ok _ _) H1 x Hx).
+      * exact (IH b H2 i x Hx).
+Qed.
+
 Lemma ale_sound a b : ale a b = true -> ale_prop a b.
 Proof.
-  unfold ale. rewrite andb_true_iff, !forallb_forall. intros [Hv Hh]. split.
-  - intros x t Ht. destruct (Nat.lt_ge_cases x (length (av a))) as [L|L].
-    + assert (S : subset Nat.eqb (getv a x) (getv b x) = true) by (apply Hv, in_seq; lia).
-      eapply subset_In in S; [exact S|exact nateqb_ok|exact Ht].
-    + unfold getv in Ht. rewrite nth_overflow in Ht by assumption. destruct Ht.
-  - intros t e He. destruct (Nat.lt_ge_cases t (length (ah a))) as [L|L].
-    + assert (S : subset peqb (geth a t) (geth b t) = true) by (apply Hh, in_seq; lia).
-      eapply subset_In in S; [exact S|exact peqb_ok|exact He].
-    + unfold geth in He. rewrite nth_overflow in He by assumption. destruct He.
+  unfold ale. rewrite andb_true_iff. intros [Hv Hh]. split.
+  - intros x t Ht. unfold getv in *. exact (lle_nth nat Nat.eqb nateqb_ok _ _ Hv x t Ht).
+  - intros t e He. unfold geth in *. exact (lle_nth _ peqb peqb_ok _ _ Hh t e He).
 Qed.
 
 (* ------------------------------------------------------------------ *)
